@@ -368,6 +368,51 @@ impl Env {
     }
 }
 
+/// the accessors of the three mappers hand out the table / parameters the mapper was built on
+fn accessors(env: &Env, rep: &mut Report) {
+    let root = env.arena.root_ptr() as usize;
+    let res: Result<Vec<(&'static str, usize, usize)>, String> = env.bracket(|| {
+        catch_msg(|| match env.kind {
+            Kind::Mapped => {
+                let mut m = unsafe { MappedPageTable::new(&mut *env.arena.root_ptr(), env.arena.mapping()) };
+                let a = m.level_4_table() as *const _ as usize;
+                let b = m.level_4_table_mut() as *mut _ as usize;
+                let _ = m.page_table_frame_mapping();
+                vec![("level_4_table", a, root), ("level_4_table_mut", b, root)]
+            }
+            Kind::Offset => {
+                let mut m = unsafe { OffsetPageTable::new(&mut *env.arena.root_ptr(), VirtAddr::new(env.offset)) };
+                let a = m.level_4_table() as *const _ as usize;
+                let b = m.level_4_table_mut() as *mut _ as usize;
+                vec![("level_4_table", a, root), ("level_4_table_mut", b, root), ("phys_offset", m.phys_offset().as_u64() as usize, env.offset as usize)]
+            }
+            #[cfg(not(miri))]
+            Kind::Recursive => {
+                let l4 = env.mmu.as_ref().unwrap().l4_addr() as usize;
+                with_mapper!(env, |m| {
+                    let a = m.level_4_table() as *const _ as usize;
+                    let b = m.level_4_table_mut() as *mut _ as usize;
+                    let exp = if env.rec_unchecked { root } else { l4 };
+                    vec![("level_4_table", a, exp), ("level_4_table_mut", b, exp)]
+                })
+            }
+            #[cfg(miri)]
+            Kind::Recursive => Vec::new(),
+        })
+    });
+    rep.eval();
+    match res {
+        Ok(v) => {
+            for (what, got, exp) in v {
+                if got != exp {
+                    rep.violation_for("C01", &format!("{}|{}|not-what-the-mapper-was-built-on", env.kind.name(), what), J::obj(vec![("env", J::s(env.desc.clone())), ("got", J::hex(got as u64)), ("expected", J::hex(exp as u64))]));
+                }
+            }
+        }
+        Err(m) => rep.violation_for("C01", &format!("{}|accessor|panic", env.kind.name()), J::obj(vec![("env", J::s(env.desc.clone())), ("panic", J::s(m))])),
+    }
+}
+
 const MENU_PHYS: [u64; 10] = [0x0, 0x1000, 0x20_0000, 0x4000_0000, 0xf_ffff_ffff_f000, 0xf_ffff_ffe0_0000, 0xf_ffff_c000_0000, 0x8000_0000_0000, 0x7fff_ffff_f000, 0x1_0000_0000];
 
 pub fn new_env(kind: Kind, r: &mut Rng, nframes: usize) -> Env {
@@ -1501,6 +1546,7 @@ pub fn run_history_ext(kind: Kind, r: &mut Rng, rep: &mut Report, focus: &str, l
     };
     let u = universe(r, env.rec);
     rep.count("histories", 1);
+    accessors(&env, rep);
     for _ in 0..len {
         let mut op = gen_op(r, &env, &u, focus);
         if env.ext {
